@@ -501,7 +501,7 @@ def stream_last_round(ctx, res):
                 body.append("<SYNC start=%d><P class=ENCC>%s</P></SYNC>\n<SYNC start=%d><P class=ENCC>&nbsp;</P></SYNC>"
                             % (a // 1000, inner, b // 1000))
             doc = ('<SAMI><HEAD><TITLE>t</TITLE><STYLE TYPE="text/css"><!--\nP { margin-left: 0%; margin-right: 0%; '
-                   'margin-top: 0%; margin-bottom: 0%; }\n.ENCC {Name: English; lang: en-US; SAMI_Type: CC;}\n--></STYLE>'
+                   'margin-top: 0%; margin-bottom: 0%; text-align: center; }\n.ENCC {Name: English; lang: en-US; SAMI_Type: CC;}\n--></STYLE>'
                    '</HEAD><BODY>\n' + "\n".join(body) + "\n</BODY></SAMI>")
             made = impl.call(lambda: SAMIReader().read(doc))
         else:
